@@ -417,6 +417,26 @@ def run(ctx):
     ctx.traces += len(jobs) + len(raw_jobs)
     ctx.notes["scenarios"] = {"graph_nodes": len(g.nodes), "fault_sequences_replayed": len(jobs), "unstructured_inputs": len(raw_jobs), "entry_points": sorted(k for k in results[0] if not k.startswith("_"))}
     ctx.sample({"fault_sequence": {"layout": chosen[len(chosen) // 2][0], "faults": chosen[len(chosen) // 2][1]}})
+    # header blocks of every shape behind every kind of start line: lines that begin with white space (a continuation with nothing to
+    # continue), lines without a colon, only a colon, empty names, NULs, lone CR / LF, a very long line, no header block at all
+    from dissect.cobaltstrike import c2 as _c2
+
+    starts_ = [b"GET /a HTTP/1.1", b"HTTP/1.1 200 OK", b"NOTHTTP", b"", b"HTTP/1.1 abc OK", b"GET  /a  HTTP/1.1"]
+    shapes_ = [b" folded", b"\tx", b" ", b"\t", b"nocolon", b":", b": v", b"k:", b"k:v", b"\x00: \x00", b"a: b\rc: d", b"a: b\nc: d", b"X: " + b"y" * 70000, b"\xff\xfe: \xff",
+               b"X-A: one\r\n two", b"X-A: one\r\n\ttwo\r\n three", b" lead\r\nHost: x", b"Host: x\r\n trail", b"\r\n: ", b"k: v\r\n\r\n \r\n"]
+    n_shapes = 0
+    for st_ in starts_:
+        for sh_ in shapes_:
+            for tail_ in (b"\r\n\r\nbody", b"\r\n", b""):
+                msg_ = st_ + b"\r\n" + sh_ + tail_
+                o = core.guarded(_c2.parse_raw_http, msg_, seconds=20)
+                ctx.evaluations += 1
+                n_shapes += 1
+                if o[0] not in ("ok", "ValueError"):
+                    ctx.violation("an entry point raised something else than its documented ValueError", {"op": "parse_raw_http", "failed": "exception", "layout": "http_header_shapes"},
+                                  {"message": msg_[:120].decode("latin-1"), "got": str(o)[:160]})
+        ctx.count_distinct(("http_header_shapes", st_))
+    ctx.notes["http_header_shapes"] = n_shapes
     ctx.notes["rule"] = ("fault sequences = every single fault and a sample (thorough: all) of the pairs of Faults.tla over five layouts (raw, PE, XorEncoded, Guardrails, HTTP) x "
                          "{truncate at a region boundary -1/0/+1, set a structure field to 0/1/max/just-beyond-EOF, flip, drop, duplicate, splice}; unstructured: random / constant bytes of boundary "
                          "lengths, truncated / corrupted / spliced real samples; every input through 17 entry points (BytesIO and real file) under a watchdog; distinct = inputs")
